@@ -803,6 +803,46 @@ def check_reducer_settings(ctx, repo, flow):
                   "becomes fitted" % (vname, attr, attr), ctx.loc(cls.module, fn), witness={attr: 0})
 
 
+def helper_rejects_in_sample(repo, module, fn):
+    """``fn`` hands the relative branch to a module-level helper: True when that helper is called exactly on the relative
+    branch and raises whenever the horizon is not all out-of-sample; False when such a helper exists but does not; None
+    when no helper call on the relative branch is found."""
+    from itertools import product
+    def is_helper_call(st):
+        if isinstance(st, (ast.If, ast.For, ast.While, ast.With, ast.Try)):
+            return False
+        for c in astq.calls(st):
+            if isinstance(c.func, ast.Name):
+                sym = repo.resolve_name(module, c.func.id)
+                if sym is not None and sym.kind == "func" and sym.module is module and any("is_all_out_of_sample" in ast.unparse(x) for x in ast.walk(sym.target)):
+                    return True
+        return False
+    pc = PathConditions(fn, Atomizer(), mark=is_helper_call)
+    for st, cond in pc.marked:
+        ats = sorted(atoms_of(cond))
+        rel = [a for a in ats if a.endswith(".is_relative")]
+        if len(rel) != 1 or len(ats) > 8:
+            continue
+        others = [a for a in ats if a not in rel]
+        on_rel = all(evaluate(cond, dict(zip(others, v), **{rel[0]: True})) for v in product((False, True), repeat=len(others)))
+        off_abs = all(not evaluate(cond, dict(zip(others, v), **{rel[0]: False})) for v in product((False, True), repeat=len(others)))
+        if not (on_rel and off_abs):
+            continue
+        for c in astq.calls(st):
+            if isinstance(c.func, ast.Name):
+                sym = repo.resolve_name(module, c.func.id)
+                if sym is None or sym.kind != "func":
+                    continue
+                hp = PathConditions(sym.target, Atomizer())
+                hats = sorted(atoms_of(hp.raises))
+                oos = [a for a in hats if "is_all_out_of_sample" in a]
+                if len(oos) != 1 or len(hats) > 8:
+                    return False
+                oth = [a for a in hats if a not in oos]
+                return all(evaluate(hp.raises, dict(zip(oth, v), **{oos[0]: False})) for v in product((False, True), repeat=len(oth)))
+    return None
+
+
 def run_all(ctx, repo):
     from . import _c20_oracle
     _c20_oracle.run_all(ctx, repo, rule="R2")
